@@ -118,9 +118,12 @@ CLAIMED['C09'] = (
     'Manifest half only. Two-state lemmas over the proved contracts: a start time determines the canonical segment and its '
     'duration (two manifests agree on every segment they both list); get_segment_index and timedelta_to_timecode are monotone '
     '(the listed window only moves forward); availabilityStartTime and publishTime never move backward; together with the '
-    'live timeline and calculate_live_params contracts these are re-discharged from the current source on every run.',
-    'Trusted: as C02/C08. The MPD-patch half (PatchLocation, ServePatch.get, XML replace operations) is template/handler '
-    'level and not covered.',
+    'live timeline and calculate_live_params contracts these are re-discharged from the current source on every run. Handlers: '
+    'ServeManifest.get (400 mapping, patch only in live mode and only with a SegmentTimeline feature, SegmentTimeline flag, '
+    'synthetic error passthrough, cache lifetime = floor(minimumUpdatePeriod)) and ServePatch.get (400 unless the manifest has the '
+    'patch and SegmentTimeline features and allows live mode; options parsed for live, patch and SegmentTimeline forced on, the '
+    'original publish time is the requested epoch second).',
+    'Trusted: as C02/C08. The XML of the patch document (PatchLocation, replace operations) is template level and not covered.',
     'contract-based deductive verification: lemmas over function contracts (z3 + cvc5)')
 CLAIMED['C16'] = (
     'DESIGN.md 4 C16',
